@@ -34,16 +34,25 @@ META = {
 
 def part_a(ctx):
     variants = (("gcc", "-O1"), ("gcc", "-O2")) if ctx.tier == "thorough" else (("gcc", "-O1"),)
-    b, viols, hists, stats, st = wcorepipe.model_check(ctx, "C05", "cgen", "split", ["NoPoisonRead"], {"poison"}, want_export=True, compile_c=variants)
     # only programs with a coroutine matter
-    total_calls, mism = 0, []
+    mism = []
+    tot = {"calls": 0, "hists": 0}
     dead = set()      # (program, function) on which a compiled variant hung or crashed (confirmed): not driven again
-    for v, exe in b.exes.items():
-        bad, calls = wcorepipe.replay(ctx, b, hists, exe, dead=dead)
-        total_calls += calls
-        for m in bad:
-            m["compiler"] = " ".join(v)
-            mism.append(m)
+
+    def drive(b, hs):
+        tot["hists"] += len(hs)
+        for v, exe in b.exes.items():
+            bad, calls = wcorepipe.replay(ctx, b, hs, exe, dead=dead)
+            tot["calls"] += calls
+            for m in bad:
+                m["compiler"] = " ".join(v)
+                mism.append(m)
+    thorough = ctx.tier == "thorough"
+    b, viols, hists, stats, st = wcorepipe.model_check(ctx, "C05", "cgen", "split", ["NoPoisonRead"], {"poison"}, want_export=True, compile_c=variants,
+                                                       sink=drive if thorough else None)
+    if not thorough:
+        drive(b, hists)
+    total_calls = 0
     # A program on which the cgen-shaped model reads a local that the generated C does not save has no exported
     # histories behind that read (the model stops there).  What the C does with such a program is decided against the
     # IDEAL semantics (every local survives a suspension) under the same split schedules: a difference there is the
@@ -59,12 +68,7 @@ def part_a(ctx):
         stats["states"] += stats2["states"]
         stats["generated"] += stats2["generated"]
         stats["runs"] += stats2["runs"]
-        for v, exe in b.exes.items():
-            bad, calls = wcorepipe.replay(ctx, b, hists2, exe, dead=dead)
-            total_calls += calls
-            for m in bad:
-                m["compiler"] = " ".join(v)
-                mism.append(m)
+        drive(b, hists2)
         ctx.log("%d programs with an unsaved local: %d more histories from the ideal semantics replayed" % (len(poisoned), len(hists2)))
     # a poison read is a violation only if it is observable: replay found a mismatch for that program
     mism_progs = {m["prog"] for m in mism}
@@ -86,6 +90,8 @@ def part_a(ctx):
         # Without an observable difference in the replay this is logged, not reported (the property is about results).
         benign += 1
         ctx.log("poison read of local `%s` in %s without observable difference (logged as benign)" % (detail, p["name"]))
+    total_calls = tot["calls"]
+    stats["histories"] = tot["hists"]
     return b, stats, st, hists, total_calls, len(seen), benign, len(viols)
 
 
@@ -306,15 +312,15 @@ def token_schedules(rng, dec, n, ntok, thorough):
 
 def run(ctx):
     b, stats, st, hists, calls, nmism, benign, npoison = part_a(ctx)
-    ctx.log("part (a): %d histories, %d calls replayed, %d mismatching programs, %d poison reads (%d benign)" % (len(hists), calls, nmism, npoison, benign))
+    ctx.log("part (a): %d histories, %d calls replayed, %d mismatching programs, %d poison reads (%d benign)" % (stats.get("histories", len(hists)), calls, nmism, npoison, benign))
     pb = part_b(ctx)
     ctx.log("part (b): %d scheduled jobs, %d events validated" % (pb["jobs"], pb["events"]))
     cov = wcorepipe.coverage_common(ctx, b, stats, st)
     nonempty = [h for h in hists if h["hist"]]
     cov["states"] = max(1, sum(t["distinct"] for t in ctx.tlc_stats))
     cov["transitions"] = max(1, sum(t["generated"] for t in ctx.tlc_stats))
-    cov["traces_validated_against_impl"] = len(nonempty) + pb["jobs"]
-    cov["generated_coroutine_histories_replayed"] = len(nonempty)
+    cov["traces_validated_against_impl"] = stats.get("histories", len(nonempty)) + pb["jobs"]
+    cov["generated_coroutine_histories_replayed"] = stats.get("histories", len(nonempty))
     cov["generated_coroutine_calls_compared"] = calls
     cov["poison_reads_in_model"] = npoison
     cov["poison_reads_without_observable_difference"] = benign
